@@ -410,6 +410,47 @@ func AddDisjointAbstract(r *hx.Rng, s *gq.SchemaDesc) {
 	q.Fields = append(q.Fields, gq.FieldDesc{Name: "qx", Type: r.Pick([]string{"IX", "[IX!]", "UX", "OX!"})}, gq.FieldDesc{Name: "qu", Type: "UX"})
 }
 
+// AddListShapes adds an input object InL and a query field ql whose arguments / input fields have list types of
+// every nullability shape ([T], [T]!, [T!], [T!]!, nested lists), lists of input objects and a required scalar
+// next to them — the positions where TypeInfo has to track element and field types.
+func AddListShapes(r *hx.Rng, s *gq.SchemaDesc) {
+	if !r.Chance(2, 3) || s.Type("InL") != nil {
+		return
+	}
+	bases := []string{"Int", "String", "Boolean", "ID", "Float"}
+	for _, t := range s.Types {
+		if t.Kind == "ENUM" {
+			bases = append(bases, t.Name)
+		}
+	}
+	shapes := []string{"[T]", "[T]!", "[T!]", "[T!]!", "[[T]]", "[[T!]!]!", "[[T]!]", "T", "T!"}
+	shape := func() string { return strings.Replace(r.Pick(shapes), "T", r.Pick(bases), 1) }
+	inl := gq.TypeDesc{Kind: "INPUT_OBJECT", Name: "InL"}
+	n := r.Range(2, 4)
+	for i := 0; i < n; i++ {
+		inl.InputFields = append(inl.InputFields, gq.ArgDesc{Name: fmt.Sprintf("s%d", i), Type: shape()})
+	}
+	if r.Chance(1, 2) {
+		inl.InputFields = append(inl.InputFields, gq.ArgDesc{Name: "req", Type: r.Pick([]string{"Boolean!", "Int!", "[Int]!"})})
+	}
+	inl.InputFields = append(inl.InputFields, gq.ArgDesc{Name: "n", Type: "InL"})
+	if r.Chance(1, 2) {
+		inl.InputFields = append(inl.InputFields, gq.ArgDesc{Name: "ns", Type: r.Pick([]string{"[InL]", "[InL!]", "[InL]!"})})
+	}
+	s.Types = append(s.Types, inl)
+	f := gq.FieldDesc{Name: "ql", Type: "Int"}
+	n = r.Range(2, 4)
+	for i := 0; i < n; i++ {
+		f.Args = append(f.Args, gq.ArgDesc{Name: fmt.Sprintf("a%d", i), Type: shape()})
+	}
+	f.Args = append(f.Args, gq.ArgDesc{Name: "o", Type: r.Pick([]string{"InL", "InL!"})})
+	if r.Chance(1, 2) {
+		f.Args = append(f.Args, gq.ArgDesc{Name: "os", Type: r.Pick([]string{"[InL]", "[InL!]!", "[InL]!"})})
+	}
+	q := s.Type(s.Query)
+	q.Fields = append(q.Fields, f)
+}
+
 // ---------------------------------------------------------------- generator
 
 type ValidDocOpts struct {
@@ -505,6 +546,9 @@ func (g *vgen) litBody(te *gq.TypeExpr, depth int, allowVars bool) string {
 	case "nonNull":
 		return g.litBody(te.Of, depth, allowVars)
 	case "list":
+		if depth <= 0 && g.v.Kind(te.NamedName()) == "INPUT_OBJECT" {
+			return "[]" // bounds the recursion through lists of (recursive) input objects
+		}
 		if r.Chance(1, 4) {
 			g.feat("list-of-one")
 			inner := te.Of
@@ -517,6 +561,11 @@ func (g *vgen) litBody(te *gq.TypeExpr, depth int, allowVars bool) string {
 		n := r.Intn(3)
 		parts := []string{}
 		for i := 0; i < n; i++ {
+			if allowVars && !g.o.NoVariables && r.Chance(1, 4) {
+				g.feat("variable-as-list-element")
+				parts = append(parts, g.useVar(te.Of.String()))
+				continue
+			}
 			parts = append(parts, g.lit(te.Of, depth-1, allowVars))
 		}
 		return "[" + strings.Join(parts, ", ") + "]"
@@ -560,7 +609,7 @@ func (g *vgen) litBody(te *gq.TypeExpr, depth int, allowVars bool) string {
 			fe, _ := gq.ParseType(f.Type)
 			required := fe.Kind == "nonNull"
 			if required || (depth > 0 && r.Chance(1, 2)) {
-				if fe.NamedName() != te.Name || depth > 0 {
+				if fe.NamedName() != te.Name || depth > 0 || required {
 					if g.v.Kind(fe.NamedName()) == "INPUT_OBJECT" {
 						g.feat("nested-input-object")
 					}
